@@ -199,7 +199,7 @@ func (vc *VC) applyContractOn(callee *ssa.Function, args []Term, preIn *Heap, r 
 					if rr == "*" {
 						star = true
 					}
-					excl = append(excl, not(eq("r", rr)))
+					excl = append(excl, not(allowedCond(rr, "r")))
 				}
 				if star {
 					continue
